@@ -466,12 +466,28 @@ func poolNew(p *Value) Value {
 	return nil
 }
 
+// sync.Pool models (symPoolModel): 0 = the runtime's behaviour on one P without GC: a private slot
+// filled by the first Put and emptied by the next Get, behind it a LIFO stack; 1 = plain LIFO stack;
+// 2 = FIFO queue. The object order is the only freedom the property-relevant code can observe.
 func mPoolGet(e *Engine, a []Value) Value {
 	p := a[0].(*Value)
+	if e.poolModel == 0 {
+		if v, ok := e.poolPrivate[p]; ok {
+			delete(e.poolPrivate, p)
+			e.ownPooled(v, false)
+			return v
+		}
+	}
 	st := e.pools[p]
 	if len(st) > 0 {
-		v := st[len(st)-1]
-		e.pools[p] = st[:len(st)-1]
+		var v Value
+		if e.poolModel == 2 {
+			v = st[0]
+			e.pools[p] = st[1:]
+		} else {
+			v = st[len(st)-1]
+			e.pools[p] = st[:len(st)-1]
+		}
 		e.ownPooled(v, false)
 		return v
 	}
@@ -488,6 +504,16 @@ func mPoolPut(e *Engine, a []Value) Value {
 			if lbl, ro := e.readonly[pv]; ro {
 				e.reportKind("frame", "sync.Pool.Put of read-only "+lbl+" at "+e.where(), nil)
 			}
+		}
+	}
+	if e.poolModel == 0 {
+		if _, ok := e.poolPrivate[p]; !ok {
+			if e.poolPrivate == nil {
+				e.poolPrivate = map[*Value]Value{}
+			}
+			e.poolPrivate[p] = a[1]
+			e.ownPooled(a[1], true)
+			return nil
 		}
 	}
 	e.pools[p] = append(e.pools[p], a[1])
